@@ -46,6 +46,9 @@ struct RunCtx {
 	std::map<std::string, uint64_t> counters; // probes, fault fired counts, audit counts
 	std::vector<std::string> notes;
 	bool nontrivial = false;
+	// when an allocation failure was injected, every divergence is a C18 matter ("contained")
+	std::string prop_override;
+	J extra = J::obj(); // free-form per-run data returned to the driver (e.g. allocations per op)
 	void viol(const char *prop, const std::string &cls, const std::string &sig, const char *fmt, ...)
 		__attribute__((format(printf, 5, 6)))
 	{
@@ -60,6 +63,11 @@ struct RunCtx {
 		v.prop = prop;
 		v.cls = cls;
 		v.sig = sig;
+		if (!prop_override.empty() && v.prop != prop_override) {
+			v.cls = "after-alloc-failure-" + v.prop + "-" + cls;
+			v.sig = prop_override + ":after-alloc-failure:" + sig;
+			v.prop = prop_override;
+		}
 		v.msg = buf;
 		v.step = sim_steps();
 		v.t_ns = sim_now_ns();
